@@ -3,7 +3,8 @@ use ckb_types::{
     core::{EpochNumber, EpochNumberWithFraction, ExtraHashView, HeaderView},
     packed::LightClientMessage,
     prelude::*,
-    utilities::merkle_mountain_range::VerifiableHeader,
+    utilities::{compact_to_difficulty, merkle_mountain_range::VerifiableHeader},
+    U256,
 };
 
 use super::{Status, StatusCode};
@@ -49,6 +50,9 @@ impl HeaderUtils for HeaderView {
 // Ref: https://github.com/nervosnetwork/ckb/blob/v0.112.1/util/types/src/utilities/merkle_mountain_range.rs#L212-L241
 pub(crate) trait VerifiableHeaderPatch {
     fn patched_is_valid(&self, mmr_activated_epoch_number: EpochNumber) -> bool;
+
+    /// Whether `total_difficulty()` can be computed without overflowing 256 bits.
+    fn is_total_difficulty_computable(&self) -> bool;
 }
 
 impl VerifiableHeaderPatch for VerifiableHeader {
@@ -82,5 +86,11 @@ impl VerifiableHeaderPatch for VerifiableHeader {
         let expected_extra_hash = extra_hash_view.extra_hash();
         let actual_extra_hash = self.header().extra_hash();
         expected_extra_hash == actual_extra_hash
+    }
+
+    fn is_total_difficulty_computable(&self) -> bool {
+        let parent_total_difficulty: U256 = self.parent_chain_root().total_difficulty().unpack();
+        let block_difficulty = compact_to_difficulty(self.header().compact_target());
+        parent_total_difficulty.checked_add(&block_difficulty).is_some()
     }
 }
